@@ -83,8 +83,9 @@ def k1b(I):
             return
         I.check('accepted_only_within_tolerance', I.ctx.fdiv(simp(short * E18), expected) <= s)
         if I.opts.get('tier') == 'thorough':
-            # against the exact rational offer/p*(1-s): return >= that minus (offer/1e18 + 2) units
-            I.check('accepted_vs_exact_price', (ret + 2) * E18 * p + offer * p >= offer * E18 * (E18 - s))
+            # against the exact rational X = offer/p: return >= X*(1-s) - (X/1e18 + offer/1e18 + 2) units
+            # (18-decimal resolution of the inverse price, of the product and of the ratio)
+            I.check('accepted_vs_exact_price', (ret + 2) * E18 * p + offer * p + offer * E18 >= offer * E18 * (E18 - s))
     else:
         I.cover('err')
         I.check('rejected_only_when_short', ret < expected)
